@@ -106,17 +106,17 @@ def sample_scenarios(rng, n, maxh, np_):
 
 CONFIGS = {
     "quick": dict(consts=dict(NP=3, CPI=2, MaxH=5, MaxSteps=9, MaxReorgs=1, MaxRb=3, MaxExt=1, MaxExtN=2,
-                              RbDepths="{1, 3}", EnvFree=False),
+                              RbDepths="{1, 3}", EnvFree=False, EnvLean=True),
                   sampled=3, walks=0),
     "thorough": dict(consts=dict(NP=3, CPI=2, MaxH=7, MaxSteps=12, MaxReorgs=2, MaxRb=3, MaxExt=2, MaxExtN=2,
-                                 RbDepths="{1, 2, 3}", EnvFree=True),
+                                 RbDepths="{1, 2, 3}", EnvFree=False, EnvLean=False),
                      sampled=40, walks=3000),
 }
 
 
 def label(act):
     s = act.get("op", "?")
-    if s in ("GetCheckpts", "RCfh", "RFlt", "UCfh", "UFlt"):
+    if s in ("GetCheckpts", "RCfh", "RFlt", "UCfh", "UFlt"):  # GetCheckpts = the answers to GcSend
         s += "(%s)" % ",".join(str(x) for x in act.get("rs", []))
     elif s == "CPDeliver":
         s += "(%d,p%d)" % (act.get("j", 0), act.get("p", 0))
